@@ -21,7 +21,7 @@ use std::collections::BTreeMap;
 
 pub fn other_backends(tier: Tier, all: &[Selected], excluded: &std::collections::BTreeSet<usize>, rep: &mut Reporter, counters: &mut BTreeMap<String, u64>) -> Result<(), String> {
     let thorough = tier == Tier::Thorough;
-    let stride: usize = std::env::var("PDLMC_C17_STRIDE").ok().and_then(|s| s.parse().ok()).unwrap_or(if thorough { 8 } else { 6 });
+    let stride: usize = std::env::var("PDLMC_C17_STRIDE").ok().and_then(|s| s.parse().ok()).unwrap_or(if thorough { 24 } else { 6 });
     // per backend: every stride-th state of its own supported set (different offsets so that
     // the three subsets overlap as little as possible)
     let mut which_of: BTreeMap<usize, Which> = BTreeMap::new();
